@@ -2,7 +2,7 @@
    inputs to this function (extracted to OCaml) and to the JAX implementation. *)
 From Coq Require Import ZArith QArith Qcanon List Bool.
 From EXV Require Import Base.Scalar Base.FieldLemmas Base.Cplx Exec.Codec.
-From EXV Require Import Utils.Rollout Gen.ETDRK Gen.Guards Spectral.Symbols Gen.GenericUtils Steppers.Linear Layout.Freq Nonlin.Conv Nonlin.Terms.
+From EXV Require Import Utils.Rollout Gen.ETDRK Gen.Guards Spectral.Symbols Gen.GenericUtils Steppers.Linear Layout.Freq Nonlin.Conv Nonlin.Terms Spectral.Operators.
 Import ListNotations.
 Local Open Scope Z_scope.
 
@@ -154,6 +154,8 @@ Definition run_sym (a : list Q) : list Q :=
     | 12 => sym_cahn_hilliard CQ (g 0%nat) (g 1%nat) (g 2%nat) d
     | 13 => sym_gray_scott CQ (g 0%nat) (g 1%nat) (qn (getq p 2)) d
     | 14 => sym_swift_hohenberg CQ (g 0%nat) (g 1%nat) d
+    | 20 => laplace_sym CQ (qn (getq p 0)) d
+    | 21 => gip_sym CQ (crs (skipn 1 p)) (qn (getq p 0)) d
     | _ => poly_sym CQ (crs p) d
     end ].
 
@@ -245,6 +247,23 @@ Definition run_term (a : list Q) : list Q :=
     end in
   put_cx (flat_map (fun f => map f band) outs).
 
+(* ---- C05 / C10: Poisson, derivative, Leray and make_incompressible at one mode ---- *)
+Definition run_ops (sub : Z) (a : list Q) : list Q :=
+  let cxa i := mkcx (qqc (getq a i)) (qqc (getq a (S i))) : CQ in
+  match sub with
+  | 1 => put_cx [poisson_mode CQ (cxa 0%nat) (cxa 2%nat)]
+  | 2 => (* which D s k... u(re,im)... *)
+      let D := qn (getq a 1) in
+      let d := dop CQ ciQ (cr (getq a 2)) (map qz (firstn D (skipn 3 a))) in
+      let u := take_cx (skipn (3 + D) a) in
+      put_cx (if qb (getq a 0) then make_incompressible_mode CQ d u else leray_mode CQ d u)
+  | 3 => (* derivative: order D s k... u(re,im) *)
+      let D := qn (getq a 1) in
+      let d := dop CQ ciQ (cr (getq a 2)) (map qz (firstn D (skipn 3 a))) in
+      put_cx (deriv_mode CQ (qn (getq a 0)) d (cxa (3 + D)%nat))
+  | _ => []
+  end.
+
 Definition run (id : Z) (a : list Q) : list Q :=
   let '(prop, sub) := Z.div_eucl id 100 in
   match prop with
@@ -253,6 +272,7 @@ Definition run (id : Z) (a : list Q) : list Q :=
   | 20 => run_c20 sub a
   | 4 => run_c04 sub a
   | 3 => match sub with 1 => run_term a | _ => [] end
+  | 5 => run_ops sub a
   | 1 => match sub with 1 => run_sym a | 2 => run_wave a | _ => [] end
   | 13 => match sub with 1 => run_conv a | _ => [] end
   | _ => []
